@@ -36,6 +36,7 @@ class LinkSpec:
         self.sess_rx = 0
         self.n_reply = 0
         self.carry = []
+        self.seq = 0                  # global order of tx / rx hand-offs
         self.dispatching = None       # thread that received a packet and has not asked for the next one yet
         self.on_dispatch_start = None
         self.faults_fired = 0
@@ -136,7 +137,8 @@ class SimLinkDriver(CRTPDriver):
         deliver = True
         if spec.tx_filter is not None:
             deliver = bool(spec.tx_filter(spec, n, header, data))
-        spec.tx.append((self._now(), self.session, header, data, deliver))
+        spec.seq += 1
+        spec.tx.append((self._now(), self.session, header, data, deliver, spec.seq))
         if deliver:
             for (h, d) in spec.device.handle(header, data):
                 spec.n_reply += 1
@@ -170,7 +172,8 @@ class SimLinkDriver(CRTPDriver):
                 spec = self.spec
                 spec.n_rx += 1
                 spec.sess_rx += 1
-                spec.rx.append((now, self.session, h, d))
+                spec.seq += 1
+                spec.rx.append((now, self.session, h, d, spec.seq))
                 pk = CRTPPacket(h, list(d))
                 spec.dispatching = threading.current_thread()
                 if spec.on_dispatch_start is not None:
